@@ -165,7 +165,7 @@ def r2(ctx):
                 ctx.ob("R2", f"{f.qualname.split('.', 3)[-1]}: the byte-budget loop leaves on an empty read", leaves, func=f, node=lp,
                        instance=f"{f.name}:progress:{buf}",
                        message=f"{f.qualname}: `{unparse(d)}` makes no progress when `{buf}` is empty: a truncated stream hangs the copy instead of failing")
-    ctx.require(n >= 2, f"C23.R2: only {n} byte-budget loops found")
+    ctx.require(n >= 1, f"C23.R2: only {n} byte-budget loops found")
 
 
 def r3(ctx):
